@@ -226,10 +226,32 @@ async fn key_history_against_model() -> Result<(), String> {
   Ok(())
 }
 
+/// MethodDigest::{pack, unpack}: total on every byte string (bounded exhaustive over {0,1,9,255}^<=10) and inverse of one another
+fn method_digest_pack_unpack() -> Result<(), String> {
+  let alphabet = [0u8, 1, 9, 255];
+  let mut n = 0u32;
+  for len in 0..=10usize {
+    let total = alphabet.len().pow(len as u32);
+    for code in 0..total {
+      let mut c = code; let mut b = Vec::with_capacity(len);
+      for _ in 0..len { b.push(alphabet[c % alphabet.len()]); c /= alphabet.len(); }
+      n += 1;
+      let r = std::panic::catch_unwind(|| MethodDigest::unpack(b.clone())).map_err(|_| format!("MethodDigest::unpack({b:?}) PANICS"))?;
+      let want = b.len() == 9 && b[0] == 0;
+      match r { Ok(d) => { if !want { return Err(format!("unpack({b:?}) accepted")); } if d.pack() != b { return Err(format!("pack(unpack({b:?})) = {:?}", d.pack())); } }, Err(_) => if want { return Err(format!("unpack({b:?}) refused")); } }
+    }
+  }
+  for i in 0..4u8 { let d = digest(i); let p = d.pack(); if p.len() != 9 || p[0] != 0 || MethodDigest::unpack(p.clone()).ok().as_ref() != Some(&d) { return Err(format!("unpack(pack(d)) != d for {p:?}")); } }
+  if n < 1_000_000 { return Err(format!("only {n} byte strings")); }
+  Ok(())
+}
+
 fn w(name: &str, r: Result<(), String>) { match r { Ok(()) => println!("WITNESS {name} OK"), Err(e) => println!("WITNESS {name} FAIL {e}") } }
 
 fn main() {
   let rt = tokio::runtime::Builder::new_current_thread().enable_all().build().unwrap();
+  std::panic::set_hook(Box::new(|_| {}));
+  w("ks_method_digest_pack_unpack", method_digest_pack_unpack());
   w("ks_keyid_second_insert_fails", rt.block_on(keyid_second_insert_fails()));
   w("ks_keyid_history_against_model", rt.block_on(keyid_history_against_model()));
   w("ks_generate_public_thumbprint_alg", rt.block_on(generate_public_thumbprint_alg()));
